@@ -266,7 +266,8 @@ def run(ctx):
         st, clause, pos = verdicts[case["tid"]]
         pos, deviation = split_pos(pos)
         if clause.startswith("machinery:"):
-            raise tlc.MachineryError("%s on %s" % (clause, json.dumps(detail_of(case, rec, pos))[:600]))
+            ctx.undecided("%s on %s" % (clause, json.dumps(detail_of(case, rec, pos))[:600]))
+            continue
         ctx.count()
         mixed, overhang = dd.block_class(rec, rec["arr"], effective(case), case["f"])
         if mixed or overhang:
